@@ -22,7 +22,7 @@ EXPECTED_WALL = {"quick": 50, "thorough": 400}
 REQUIRED = {"c12_urls": 375, "c12_url_children": 1250, "c12_urls_value_shorter_than_original": 37, "c12_paths_with_dot_segments": 25,
             "c12_obfuscated_ip_hosts": 6, "c12_windows_paths": 250, "c12_windows_paths_normalised": 25,
             "c12_windows_host_children": 25, "c12_windows_file_children": 62, "direct_calls": 250}
-GENS = ("url", "ioc", "seedmut", "ctxdec", "repeat", "soup")
+GENS = ("url", "ioc", "seedmut", "ctxdec", "repeat", "soup", "twopaths")
 
 
 def plan(tier, seed):
